@@ -73,8 +73,11 @@ def HX_Eff(Arrangement, Ntu, c, Passes=None, Rows=None, Cmin_Phase=None):
 
     Ntu = Ntu / Passes
     if Ntu > 0 and c >= 0:
+        # Zero capacity ratio: every arrangement reduces to 1 - exp(-NTU); the mixed cross-flow forms divide by c
+        if c == 0 and Arrangement in (HX.CrFMM, HX.CrFMUmax, HX.CrFMUmin):
+            eff = 1 - math.exp(-Ntu)
         # Counter Flow - Single Pass Effectiveness
-        if Arrangement == HX.CF:
+        elif Arrangement == HX.CF:
             # test = c * math.exp(-Ntu * (1 - c))
             if c != 1 and c * math.exp(-Ntu * (1 - c)) != 1:
                 eff = (1 - math.exp(-Ntu * (1 - c))) / (
@@ -132,8 +135,11 @@ def HX_NTU(Arrangement, eff, c, Passes=None):
         eff = Eff_p
 
     if eff > 0 and eff < 1:
+        # Zero capacity ratio: the mixed cross-flow forms divide by c
+        if c == 0 and Arrangement in (HX.CrFMUmax, HX.CrFMUmin):
+            Ntu = -math.log(1 - eff)
         # Counter Flow - Single Pass Effectiveness
-        if Arrangement == HX.CF:
+        elif Arrangement == HX.CF:
             if c != 1:
                 Ntu = 1 / (1 - c) * math.log((1 - eff * c) / (1 - eff))
             else:
